@@ -773,4 +773,44 @@ theorem pairwise_take_drop {A : Type} {R : A → A → Prop} {l : List A} (h : l
   rw [← this] at h
   exact (List.pairwise_append.mp h).2.2
 
+/-! ### the order inside a batch -/
+
+omit [DecidableEq T] in
+theorem filter_key_nodup {V : Type} {l : List (Id × V)} (hn : (akeys l).Nodup) (k : Id) :
+    l.filter (fun d => decide (d.1 = k)) = (alookup l k).toList.map (fun v => (k, v)) := by
+  induction l with
+  | nil => simp [alookup]
+  | cons e rest ih =>
+    obtain ⟨a, b⟩ := e
+    simp only [akeys, List.map_cons, List.nodup_cons] at hn
+    by_cases h : a = k
+    · subst h
+      have hnone : alookup rest a = none := (alookup_none_iff rest a).mpr hn.1
+      simp [List.filter_cons, alookup, ih hn.2, hnone]
+    · simp [List.filter_cons, alookup, h, ih hn.2]
+
+/-- the last change a batch makes to `id` -/
+def lastOf (b : List (Doc T)) (id : Id) : Option (List T) :=
+  ((b.filter (fun d => decide (d.1 = id))).getLast?).map (·.2)
+
+theorem Corpus.get_apply (c : Corpus T) (b : List (Doc T)) (id : Id) :
+    (c.apply b).get id = (lastOf b id).getD (c.get id) := by
+  induction b generalizing c with
+  | nil => simp [Corpus.apply, lastOf]
+  | cons d rest ih =>
+    have : c.apply (d :: rest) = (c.set d.1 d.2).apply rest := by simp [Corpus.apply]
+    rw [this, ih, Corpus.get_set]
+    unfold lastOf
+    by_cases hd : d.1 = id
+    · simp only [hd, if_true, List.filter_cons, decide_true]
+      cases hf : List.filter (fun d => decide (d.1 = id)) rest with
+      | nil => simp
+      | cons e es =>
+        rw [List.getLast?_cons_cons]
+        cases hl : (e :: es).getLast? with
+        | none => simp at hl
+        | some x => simp
+    · simp [hd]
+
+
 end Sema.C05
